@@ -506,6 +506,10 @@ def _validate_seq(pg, sc, plan, rule, seq, cr):
         for col, a in enumerate(spec['args']):
             t = gen['cols'].get(col)
             if 'w' in a:
+                if t is not None and t[0] == 'key':
+                    raise Mismatch('%s: wildcard column %d is constrained by a lookup key' % (what, col))
+                if t is not None:
+                    bound_ids.add(t[1])
                 continue
             if t is None:
                 if 'v' in a or 'c' in a or 'e' in a or 'pat' in a:
@@ -703,6 +707,13 @@ def _validate_seq(pg, sc, plan, rule, seq, cr):
     return [(it['rel'], it['versions']) for it in items if it['t'] == 'clause']
 
 
+def logical_key(r):
+    """two spec rules with the same flat item sequence and heads are the same logical rule (e.g. a condition attached to a clause
+    that cannot be reordered vs the same condition written as a stand-alone item)"""
+    seq = flatten_spec(r, False)
+    return repr([(k, sorted((kk, str(vv)) for kk, vv in sp.items() if kk != 'conds')) for k, sp in seq]) + repr([(h['rel'], h['args']) for h in r['heads']])
+
+
 def rule_signature(rule):
     return (tuple(h['rel'] for h in rule['heads']), tuple(sorted(b['rel'] for b in rule['body'] if b['t'] == 'clause')),
             tuple(sorted(b['rel'] for b in rule['body'] if b['t'] in ('agg', 'neg'))))
@@ -716,9 +727,17 @@ def plan_signature(plan):
 def check_program(pg, spec, rep):
     """R1-R5 for one corpus program against its spec"""
     p, cr = pg.p, pg.cr
-    rules = [r for r in spec['rules'] if not r.get('sugar')]
     if spec.get('has_sugar'):
         return 0
+    rules = []
+    mult = {}
+    for r in spec['rules']:
+        key = logical_key(r)
+        if key in mult:
+            mult[key] += 1      # the same rule written twice: one logical rule, evaluated once per copy
+            continue
+        mult[key] = 1
+        rules.append(r)
     assigned = {i: [] for i in range(len(rules))}
     written_in = {}
     for sc in p.sccs:
@@ -778,9 +797,10 @@ def check_program(pg, spec, rep):
             rep.viol('R2', where, 'rule-missing', 'no generated variant evaluates this rule')
             continue
         sccs = {sc.idx for sc, _, _ in vs}
-        if len(sccs) != 1:
+        if len(sccs) > mult[logical_key(r)]:
             rep.viol('R5', where, 'split-over-strata', 'the rule is evaluated in several strata %s' % sorted(sccs))
             continue
+        vs = [v for v in vs if v[0] is vs[0][0]]
         sc = vs[0][0]
         dyn_rels = {pg.p.index_fields[f][0] for f in sc.dynamic if f in pg.p.index_fields}
         body_cl = [b for b in r['body'] if b['t'] == 'clause']
